@@ -211,7 +211,15 @@ macro_rules! common_ops {
             // "unit-less values" and for cross-checking the digit string)
             let rf = $crate::ops::guard(|| $crate::ops::txt(&$crate::fmtgen::apply(&a, spec)));
             let (lo, hi) = $crate::num::f64_neighbours($crate::num::amt_to_f64(a));
+            // what the library's own look-up makes of the displayed symbol
+            let sym_s = Unit::symbol(&self.units[u]);
+            let resolved = $crate::ops::guard(|| {
+                let a1 = <$U as Unit>::from_symbol(&sym_s).map(|x| format!("{:?}", x));
+                let b1 = <$Q as Quantity>::unit_from_symbol(&sym_s).map(|x| format!("{:?}", x));
+                json!({"unit": $crate::ops::opt_s(a1), "qty": $crate::ops::opt_s(b1)})
+            });
             json!({"T": self.name, "v": {"a": enc(a), "u": format!("{:?}", self.units[u])},
+                   "resolved": $crate::ops::oc(resolved),
                    "sym": $crate::ops::txt(&Unit::symbol(&self.units[u])),
                    "spec": $crate::ops::spec_json(spec), "out": $crate::ops::oc(r), "ref": $crate::ops::oc(rf),
                    "lo": $crate::num::enc_f64(lo), "hi": $crate::num::enc_f64(hi)})
